@@ -4,6 +4,7 @@ log (call event before, return event after).  Online trace automata over that lo
 Also `run_py`: execute one query through the public `rbql.query` with probes armed, source snapshots taken, and every
 observation collected in one place (used by most property modules).
 """
+import zlib
 import copy
 
 from .. import env, util
@@ -72,7 +73,8 @@ def make_probes(ns):
             return self.real.get_header()
 
     class ProbeWriter(eng.RBQLOutputWriter):
-        def __init__(self, log, false_at=None, on_step=None, who='W', real=None):
+        def __init__(self, log, false_at=None, on_step=None, who='W', real=None, mutating=False):
+            self.mutating = mutating      # a sink that, like CSVWriter, rewrites the list it is handed (after keeping its own copy)
             self.log = log
             self.rows = []
             self.row_ids = []
@@ -115,13 +117,20 @@ def make_probes(ns):
                 self.returned_false = True
                 self.log.add(self.who, 'write:return', False)
                 return False
-            self.rows.append(fields)
             self.row_ids.append(id(fields))
             ok = True
             if self.real is not None:
+                self.rows.append(fields)
                 ok = self.real.write(fields)
                 if not ok:
                     self.returned_false = True
+            elif self.mutating and isinstance(fields, list):
+                self.rows.append(list(fields))
+                for i in range(len(fields)):
+                    fields[i] = '#sink:%d#' % i
+                fields.append('#sink#')
+            else:
+                self.rows.append(fields)
             self.log.add(self.who, 'write:return', ok)
             return ok
 
@@ -186,7 +195,7 @@ def deep_snapshot(t):
     return None if t is None else [list(r) for r in t]
 
 
-def run_py(ns, qtext, A, B=None, a_names=None, b_names=None, false_at=None, budget=None, normalize=True, init_code='', input_iter=None, scribble=True, on_step=None, who=''):
+def run_py(ns, qtext, A, B=None, a_names=None, b_names=None, false_at=None, budget=None, normalize=True, init_code='', input_iter=None, scribble=True, on_step=None, who='', mutating_sink=None):
     """Execute through the public `rbql.query` with probe iterator / writer / registry.  Sources are snapshotted before and
     compared after, also when the query raises."""
     PI, PW, PR = probes(ns)
@@ -196,7 +205,9 @@ def run_py(ns, qtext, A, B=None, a_names=None, b_names=None, false_at=None, budg
     idsB = [id(r) for r in B] if B is not None else []
     real_it = input_iter if input_iter is not None else ns.engine.TableIterator(A, a_names, normalize)
     it = PI(real_it, log, 'A' + who, budget=budget, on_step=on_step)
-    w = PW(log, false_at=false_at, on_step=on_step, who='W' + who)
+    if mutating_sink is None:
+        mutating_sink = zlib.crc32(qtext.encode('utf-8', 'surrogatepass')) % 2 == 1     # decided by the case itself, so a replay sees the same sink
+    w = PW(log, false_at=false_at, on_step=on_step, who='W' + who, mutating=mutating_sink)
     reg = None
     if B is not None:
         reg = PR({'b': (B, b_names), 'B': (B, b_names)}, log, normalize, on_step=on_step)
@@ -244,9 +255,9 @@ def run_py(ns, qtext, A, B=None, a_names=None, b_names=None, false_at=None, budg
             changed.append('B')
     o.sources_changed = changed
     src_ids = set(idsA) | set(idsB)
-    o.aliased = [i for i, r in enumerate(w.rows) if id(r) in src_ids]
+    o.aliased = [i for i, rid in enumerate(w.row_ids) if rid in src_ids]
     o.scribble_changed = []
-    if scribble:
+    if scribble and not mutating_sink:
         rows_copy = [list(r) if isinstance(r, list) else r for r in w.rows]
         for r in w.rows:
             if isinstance(r, list):
